@@ -2911,3 +2911,400 @@ class UpdateLocal2(LocalContract):
 
 
 LocalContract.dmrg_methods = {"form_local_ops": FormLocalOps.target}
+
+
+# ------------------------------------------------------------------------------------------------------------
+# C06: gating -- label bookkeeping of _tensor_network_gate_inds_basic and the mode table of tensor_network_gate_inds
+# ------------------------------------------------------------------------------------------------------------
+# CONVENTION: a gate array in tensor form has its ROW (output) index of target j on axis j and its COLUMN (input) index on
+# axis ng+j; "applying G" (G @ x) sums the column axes with the network's labels and leaves the row axes outside under the
+# ORIGINAL labels; transposed: the roles of the two halves are exchanged.
+
+
+class SeqL:
+    """a sequence of labels of symbolic length: j -> elem(j)"""
+
+    def __init__(self, n, elem, note=""):
+        self.n, self.elem, self.note = n, elem, note
+
+
+class LMapS:
+    """dict(zip(keys, vals)) for two label sequences"""
+
+    def __init__(self, keys, vals):
+        self.keys, self.vals = keys, vals
+
+
+class GArr:
+    """the gate array: which original array, conjugated or not, parametrised or not"""
+
+    def __init__(self, name, conj=False, param=False):
+        self.name, self.conj, self.param = name, conj, param
+
+
+class TGV:
+    """the gate tensor"""
+
+    def __init__(self, G, axes, left, ctor, tags):
+        self.G, self.axes, self.left, self.ctor, self.tags = G, axes, left, ctor, tags
+
+
+def module_const(relpath, name):
+    """value of a module-level constant of the REAL source (re-read on every run): set displays and | of names"""
+    import vf.pyvc as P
+    import os
+    full = os.path.join(P.REPO, relpath)
+    if full not in P._SRC_CACHE:
+        src = open(full).read()
+        P._SRC_CACHE[full] = (src, ast.parse(src))
+    tree = P._SRC_CACHE[full][1]
+    defs = {t.id: st.value for st in tree.body if isinstance(st, ast.Assign) for t in st.targets if isinstance(t, ast.Name)}
+
+    def ev(n):
+        if isinstance(n, ast.Name):
+            return ev(defs[n.id])
+        if isinstance(n, ast.BinOp) and isinstance(n.op, ast.BitOr):
+            return ev(n.left) + tuple(x for x in ev(n.right) if not any(x is y or (type(x) is type(y) and x == y) for y in ev(n.left)))
+        return tuple(ast.literal_eval(e) for e in n.elts)
+
+    return ev(defs[name])
+
+
+class GateContract(LabelContract):
+    property_ids = ("C06",)
+    J = z3.Int("j!target")    # skolem position in inds
+    J2 = z3.Int("j2!target")  # a second arbitrary position (injectivity / freshness instances)
+    ind_at = z3.Function("ind_at", z3.IntSort(), Lab)
+    bnd_at = z3.Function("bnd_at", z3.IntSort(), Lab)
+
+    def new_gtn(self, cx, inds):
+        return cx.new_obj("GTN", legs=inds, applied=[])
+
+    def attr(self, cx, base, attr, node):
+        if base is None and attr in ("_VALID_GATE_CONTRACT", "_SPLIT_GATE_CONTRACT", "_BASIC_GATE_CONTRACT"):
+            return module_const(GATING, attr)
+        if base is None and attr in ("ar", "PTensor", "PArray"):
+            return Marker(attr)
+        if isinstance(base, Marker) and base.name == "ar" and attr == "conj":
+            return Marker("ar.conj")
+        return super().attr(cx, base, attr, node)
+
+    def call(self, cx, name, args, kwargs, node):
+        if name == "len" and isinstance(args[0], SeqL):
+            return args[0].n
+        if name == "tags_to_oset":
+            return args[0]
+        if name.startswith(".") and isinstance(args[0], Ref) and args[0].kind == "GTN":
+            tn, m = args[0], name[1:]
+            f = cx.fields(tn)
+            if m == "copy":
+                return cx.new_obj("GTN", legs=f["legs"], applied=list(f["applied"]))
+            if m == "reindex_" and isinstance(args[1], LMapS):
+                # leaf reindex: the legs that carry the key labels now carry the values (keys pairwise distinct)
+                cx.oblige(f"reindex@{node.lineno}:keys-are-the-labels-on-the-target-legs", "call-pre",
+                          f["legs"] is args[1].keys, node.lineno)
+                f["legs"] = args[1].vals
+                return tn
+        return super().call(cx, name, args, kwargs, node)
+
+
+@register
+class GateIndsBasic(GateContract):
+    """_tensor_network_gate_inds_basic: fresh bond labels bnds, reindex_map = inds -> bnds, gate tensor labelled
+    (*inds, *bnds) -- (*bnds, *inds) when transposed -- i.e. the network's old labels join the gate's COLUMN axes (ROW
+    axes when transposed) through the fresh labels and the other half carries the ORIGINAL labels: G @ x resp. G^T @ x with
+    unchanged outer labels; contract=True / one tensor: same labels, contracted; single target + contract: Tensor.gate_
+    with the same transpose flag; split modes on two tensors: handed to the eager-split leaf with the same map and gate"""
+
+    target = f"{GATING}::_tensor_network_gate_inds_basic"
+    floor = 60
+
+    def cases(self):
+        return [NS(name=f"contract={c!r},isparam={p},transpose={t}", contract=c, isparam=p, transpose=t)
+                for c in (False, True, "split", "reduce-split") for p in (False, True) for t in (False, True)]
+
+    def case_of_call(self, cx, a):
+        return NS(name="call", contract=a.contract, isparam=a.isparam, transpose=a.transpose)
+
+    def mk_inputs(self, cx, case):
+        ng = cx.Int("ng")
+        cx.assume(ng >= 1)
+        inds = SeqL(ng, lambda j: self.ind_at(j), "inds")
+        return with_cx(cx, dict(tn=self.new_gtn(cx, inds), G=GArr("G", param=case.isparam), inds=inds, ng=ng,
+                                tags=cx.Opaque("tags"), contract=case.contract, isparam=case.isparam,
+                                info=cx.Opaque("info"), transpose=case.transpose, compress_opts={}))
+
+    def requires_cx(self, cx, a, case):
+        ok = isinstance(a.inds, SeqL) and isinstance(a.tn, Ref) and a.tn.kind == "GTN"
+        d = {"inds-is-a-label-sequence-of-the-network": ok}
+        if ok:
+            d["ng-is-len(inds)"] = a.ng == a.inds.n
+            d["targets-are-legs-of-the-network"] = cx.pre(a.tn)["legs"] is a.inds
+            d["contract-is-a-basic-mode"] = any(a.contract is x or a.contract == x for x in module_const(GATING, "_BASIC_GATE_CONTRACT")) \
+                if not is_z3(a.contract) else False
+            d["isparam-tells-the-kind-of-G"] = isinstance(a.G, GArr) and a.G.param == a.isparam
+        return d
+
+    def apply(self, cx, a, node, case=None):
+        """callee use (tensor_network_gate_inds): requires asserted, the call recorded, tn returned (in place)"""
+        case = self.case_of_call(cx, a)
+        for lab, c in self.requires_at(cx, a, case).items():
+            cx.oblige(f"call-pre@{node.lineno}:_tensor_network_gate_inds_basic:{lab}", "call-pre", c, node.lineno)
+        cx.events.append(("impl", "basic", a))
+        cx.fields(a.tn)["applied"].append(("basic", a))
+        return a.tn
+
+    def call(self, cx, name, args, kwargs, node):
+        if name == "__unpack__" and isinstance(args[0], SeqL):
+            cx.oblige(f"unpack@{node.lineno}:exactly-{args[1]}-target", "safety", args[0].n == args[1], node.lineno)
+            return [LabV(args[0].elem(j)) for j in range(args[1])]
+        if name == "__unpack__" and isinstance(args[0], NS) and "tensors_with" in args[0]:
+            # leaf: the target label sits on exactly one tensor of the network (else python raises ValueError)
+            return [NS(tensor_with=args[0].tensors_with)]
+        if name == "__genexp__":
+            n = args[0]
+            g = n.generators[0]
+            if isinstance(n.elt, ast.Call) and ast.unparse(n.elt) == "rand_uuid()" and ast.unparse(g.iter).startswith("range("):
+                ra = cx.ev(g.iter)
+                cnt = ra[1] if isinstance(ra, tuple) else len(ra)
+                bn = SeqL(cnt, lambda j: self.bnd_at(j), "bnds")
+                # FRESHNESS (instances at the skolem positions): a new label differs from every target label and from
+                # every other new label
+                cx.assume(And(self.bnd_at(self.J) != self.ind_at(self.J2), self.bnd_at(self.J) != self.ind_at(self.J),
+                              Implies(self.J != self.J2, self.bnd_at(self.J) != self.bnd_at(self.J2))))
+                return bn
+            if ast.unparse(n.elt).startswith("tn.pop_tensor(") and isinstance(cx.ev(g.iter), NS):
+                return NS(popped=cx.ev(g.iter))
+            return NotImplemented
+        if name == "zip" and len(args) == 2 and all(isinstance(x, SeqL) for x in args):
+            cx.oblige(f"zip@{node.lineno}:one-new-label-per-target", "call-pre", args[0].n == args[1].n, node.lineno)
+            return ("zipped", args[0], args[1])
+        if name == "dict" and len(args) == 1 and isinstance(args[0], tuple) and args[0][:1] == ("zipped",):
+            return LMapS(args[0][1], args[0][2])
+        if name == "__tuple__":
+            seqs = [v for kind, v in args[0]]
+            if len(seqs) != 2 or not all(isinstance(v, SeqL) for v in seqs) or any(k != "star" for k, _ in args[0]):
+                raise Unsupported("label tuple of unknown structure")
+            x, y = seqs
+            r = SeqL(x.n + y.n, lambda j, x=x, y=y: If(j < x.n, x.elem(j), y.elem(j - x.n)), f"(*{x.note}, *{y.note})")
+            r.halves = (x, y)
+            return r
+        if name in ("Tensor", "PTensor.from_parray"):
+            return TGV(args[0], kwargs.get("inds"), kwargs.get("left_inds"), name, kwargs.get("tags"))
+        if name == "tensor_contract":
+            ok = len(args) == 2 and isinstance(args[0], StarArg) and isinstance(args[0].value, NS) and \
+                "popped" in args[0].value and isinstance(args[1], TGV)
+            cx.oblige(f"contract@{node.lineno}:site-tensors-with-the-gate", "call-pre", ok, node.lineno)
+            return NS(contracted_gate=args[1], with_sites=args[0].value.popped if ok else None)
+        if name == "_tensor_network_gate_inds_eager_split":
+            cx.events.append(("eager_split", args))
+            return args[0]
+        if name == "__binop__" and args[0] == "BitOr" and isinstance(args[1], Ref) and args[1].kind == "GTN" and \
+                isinstance(node, ast.AugAssign):
+            cx.fields(args[1])["applied"].append(("attached", args[2]))
+            return args[1]
+        if name == ".gate_" and isinstance(args[0], NS) and "tensor_with" in args[0]:
+            cx.events.append(("tensor.gate_", args[0].tensor_with, args[1], args[2], kwargs.get("transpose", False)))
+            return None
+        if name == ".add_tag" and isinstance(args[0], NS):
+            return None
+        if name.startswith(".") and isinstance(args[0], Ref) and args[0].kind == "GTN":
+            tn, m = args[0], name[1:]
+            f = cx.fields(tn)
+            if m == "_inds_get":
+                return NS(tensors_with=args[1])
+            if m == "_get_tids_from_inds":
+                n = cx.Int("n_tids")
+                cx.assume(n >= 1)
+                return NS(tids_of=args[1], n=n, legs_then=f["legs"])
+            if m == "pop_tensor":
+                return NS(popped_one=args[1])
+        if name == "len" and isinstance(args[0], NS) and "tids_of" in args[0]:
+            return args[0].n
+        return super().call(cx, name, args, kwargs, node)
+
+    def ensures(self, a, r, cx, case):
+        d = {"returns-the-network-itself(in-place)": r == a.tn}
+        f = cx.fields(a.tn)
+        inds, ng, J = a.inds, a.ng, self.J
+        inr = And(0 <= J, J < ng)
+        direct = [e for e in cx.events if e[0] == "tensor.gate_"]
+        split = [e for e in cx.events if e[0] == "eager_split"]
+        att = [x for x in f["applied"] if x[0] == "attached"]
+        if direct:
+            # single target, contracted into its tensor: no relabelling at all
+            _, lab, G, ix, tr = direct[0]
+            d["single-target-route-only-for-ng=1-and-contract"] = And(ng == 1, bool(a.contract))
+            d["gate-applied-to-the-target-label-with-the-same-transpose"] = And(
+                lab.z == inds.elem(0), ix.z == inds.elem(0)) if isinstance(ix, LabV) and isinstance(lab, LabV) else False
+            d["same-gate-same-transpose"] = G is a.G and tr is a.transpose
+            d["labels-untouched"] = f["legs"] is inds and not att
+            return d
+        if split:
+            tn, i2, c2, rmap, TG, info, copts = split[0][1]
+            d["eager-split-only-for-split-modes-on-several-tensors"] = a.contract not in (True, False)
+            d["eager-split-gets-the-network-targets-mode"] = tn == a.tn and i2 is inds and c2 == a.contract
+            d["network-not-yet-relabelled"] = f["legs"] is inds
+        else:
+            d["exactly-one-gate-attached"] = len(att) == 1
+            if len(att) != 1:
+                return d
+            x = att[0][1]
+            TG = x if isinstance(x, TGV) else (x.contracted_gate if isinstance(x, NS) and "contracted_gate" in x else None)
+            rmap = LMapS(inds, f["legs"])
+            d["lazy-iff-contract-is-False"] = isinstance(x, TGV) == (a.contract is False)
+            if not isinstance(x, TGV):
+                sites = x.with_sites
+                d["contracted-with-the-tensors-that-now-carry-the-new-labels"] = isinstance(sites, NS) and \
+                    sites.tids_of is f["legs"] and sites.legs_then is f["legs"]
+        d["gate-tensor-built"] = isinstance(TG, TGV) and isinstance(TG.axes, SeqL) and hasattr(TG.axes, "halves")
+        if not d["gate-tensor-built"]:
+            return d
+        bnds = rmap.vals
+        d["reindex_map-is-inds->new-labels"] = rmap.keys is inds and bnds is not inds and isinstance(bnds, SeqL) and \
+            bnds.n is not None
+        d["one-new-label-per-target"] = bnds.n == ng
+        d["new-labels-are-fresh"] = Implies(inr, And(bnds.elem(J) != inds.elem(J), bnds.elem(J) != inds.elem(self.J2),
+                                                     Implies(J != self.J2, bnds.elem(J) != bnds.elem(self.J2))))
+        d["gate-has-2ng-axes"] = TG.axes.n == 2 * ng
+        row, col = TG.axes.elem(J), TG.axes.elem(ng + J)
+        if a.transpose:
+            d["transposed:ROW-axes-join-the-network,COLUMN-axes-carry-the-original-labels"] = Implies(
+                inr, And(row == bnds.elem(J), col == inds.elem(J)))
+        else:
+            d["COLUMN-axes-join-the-network,ROW-axes-carry-the-original-labels"] = Implies(
+                inr, And(col == bnds.elem(J), row == inds.elem(J)))
+        d["left_inds-are-the-new-labels"] = TG.left is bnds
+        d["gate-array-and-tags-passed-on"] = TG.G is a.G and TG.tags is a.tags
+        d["parametrised-gates-stay-parametrised"] = (TG.ctor == "PTensor.from_parray") == bool(a.isparam)
+        return d
+
+
+GATE_LAZY = ("split-gate", "swap-split-gate", "auto-split-gate")
+
+
+def gate_mode_table(contract, ngc, isparam, valid):
+    """which implementation a (contract, number of targets, parametrised) request reaches and with which EFFECTIVE
+    contract value -- written per class of ng (1, 2, 3 = 'three or more'); ('raise',) = ValueError"""
+    if not any(contract is v or (type(contract) is type(v) and contract == v) for v in valid):
+        return ("raise",)
+    if ngc == 1:      # a single target: the gate cannot be split -> the *-split-gate modes mean 'lazy' (False)
+        impl, eff = "basic", (False if contract in GATE_LAZY else contract)
+    elif ngc == 2:    # two targets: everything is available
+        impl, eff = ("lazy_split" if contract in GATE_LAZY else "basic"), contract
+    else:             # three or more: 'auto' means no splitting, the explicit gate splittings are rejected
+        if contract == "auto-split-gate":
+            impl, eff = "basic", False
+        elif contract in GATE_LAZY:
+            return ("raise",)
+        else:
+            impl, eff = "basic", contract
+    if isparam:       # parametrised gates keep their array shape: 'auto' -> lazy, any contraction of >1 target rejected
+        if eff == "auto-split-gate":
+            impl, eff = "basic", False
+        elif eff and ngc > 1:
+            return ("raise",)
+    return (impl, eff)
+
+
+@register
+class GateInds(GateContract):
+    """tensor_network_gate_inds: mode normalisation.  Every request either raises ValueError or reaches EXACTLY ONE
+    implementation (basic | lazy_split) with the effective contract value of gate_mode_table, ng = len(inds), the working
+    network (self or its copy), G conjugated iff dagger, transpose = transpose or dagger"""
+
+    target = f"{GATING}::tensor_network_gate_inds"
+    floor = 300
+    MODES = (False, True, "split", "reduce-split", "split-gate", "swap-split-gate", "auto-split-gate", "bogus")
+
+    def cases(self):
+        out = []
+        for c in self.MODES:
+            for ngc in (1, 2, 3):
+                for p in (False, True):
+                    for dg, tr in ((False, False), (True, False), (False, True)):
+                        for ip in (False, True):
+                            out.append(NS(name=f"contract={c!r},ng={'3+' if ngc == 3 else ngc},isparam={p},dagger={dg},"
+                                               f"transpose={tr},inplace={ip}", contract=c, ngc=ngc, isparam=p, dagger=dg,
+                                          transpose=tr, inplace=ip))
+        return out
+
+    def mk_inputs(self, cx, case):
+        if case.ngc == 3:
+            ng = cx.Int("ng")
+            cx.assume(ng >= 3)
+        else:
+            ng = case.ngc
+        inds = SeqL(ng, lambda j: self.ind_at(j), "inds")
+        return with_cx(cx, dict(self=self.new_gtn(cx, inds), G=GArr("G", param=case.isparam), inds=inds,
+                                contract=case.contract, dagger=case.dagger, transpose=case.transpose,
+                                tags=cx.Opaque("tags"), info=cx.Opaque("info"), inplace=case.inplace, compress_opts={}))
+
+    def call(self, cx, name, args, kwargs, node):
+        if name == "check_opt":
+            # utils.check_opt(name, value, valid): raises ValueError unless value in valid
+            nm, value, valid = args
+            if not any(value is v or (type(value) is type(v) and value == v) for v in valid):
+                raise PyRaise("ValueError", node.lineno)
+            return None
+        if name == "maybe_factor_gate":
+            cx.oblige(f"call-pre@{node.lineno}:maybe_factor_gate:shape-inferred-from-the-working-network", "call-pre",
+                      args[1] is cx.env["inds"] and kwargs.get("tn") == cx.env["tn"], node.lineno)
+            return args[0]  # a reshape only: same gate
+        if name == "__isinstance__" and args[1] == "PArray":
+            return isinstance(args[0], GArr) and args[0].param
+        if name == "ar.conj" and isinstance(args[0], GArr):
+            return GArr(args[0].name, not args[0].conj, args[0].param)
+        if name == ".copy" and isinstance(args[0], GArr):
+            return GArr(args[0].name, args[0].conj, args[0].param)
+        if name == ".add_function" and isinstance(args[0], GArr):
+            if not (isinstance(args[1], Marker) and args[1].name == "ar.conj"):
+                raise Unsupported("add_function of something else than conj")
+            args[0].conj = not args[0].conj
+            return None
+        if name == "_tensor_network_gate_inds_lazy_split":
+            tn, G, inds, ng, tags, contract, transpose = args[:7]
+            cx.events.append(("impl", "lazy_split", NS(tn=tn, G=G, inds=inds, ng=ng, tags=tags, contract=contract,
+                                                       transpose=transpose, isparam=None, info=None)))
+            return tn
+        return super().call(cx, name, args, kwargs, node)
+
+    def expected(self, case):
+        return gate_mode_table(case.contract, case.ngc, case.isparam, module_const(GATING, "_VALID_GATE_CONTRACT"))
+
+    def ensures_raise(self, a, exc, cx, case):
+        if exc == "ValueError":
+            return {"raise-only-where-the-mode-table-rejects": self.expected(case) == ("raise",),
+                    "nothing-applied-before-rejecting": not [e for e in cx.events if e[0] == "impl"],
+                    "receiver-untouched-when-rejecting": cx.fields(a.self)["legs"] is cx.pre(a.self)["legs"] and
+                    not cx.fields(a.self)["applied"]}
+        return {f"no-raise-{exc}": False}
+
+    def ensures(self, a, r, cx, case):
+        exp = self.expected(case)
+        if exp == ("raise",):
+            return {"rejected-mode-must-raise": False}
+        impls = [e for e in cx.events if e[0] == "impl"]
+        d = {"exactly-one-implementation-reached": len(impls) == 1}
+        if len(impls) != 1:
+            return d
+        _, which, c = impls[0]
+        d["implementation-of-the-mode-table"] = which == exp[0]
+        d["effective-contract-of-the-mode-table"] = (c.contract is exp[1]) or (isinstance(exp[1], str) and c.contract == exp[1])
+        d["returns-the-working-network"] = isinstance(r, Ref) and r == c.tn
+        if case.inplace:
+            d["inplace-works-on-the-receiver"] = r == a.self
+        else:
+            d["copy-is-gated-receiver-untouched"] = isinstance(r, Ref) and r != a.self and r.oid not in cx.pre_heap and \
+                cx.fields(a.self)["legs"] is cx.pre(a.self)["legs"] and not cx.fields(a.self)["applied"]
+        d["targets-passed-on"] = c.inds is a.inds
+        d["ng-is-len(inds)"] = c.ng == a.inds.n
+        d["tags-passed-on"] = c.tags is a.tags
+        d["gate-conjugated-iff-dagger"] = isinstance(c.G, GArr) and c.G.name == a.G.name and c.G.conj == bool(case.dagger) \
+            and c.G.param == case.isparam
+        d["transpose-is-(transpose-or-dagger)"] = c.transpose is bool(case.transpose or case.dagger)
+        d["caller's-gate-array-not-modified"] = a.G.conj is False
+        if which == "basic":
+            d["isparam-passed-on"] = c.isparam is case.isparam
+            d["info-passed-on"] = c.info is a.info
+        return d
